@@ -84,7 +84,7 @@ def _canon_files_round_robin(req, k):
 
 
 def body_request(wire, sched, *, B, M=None, cl=None, chunked=False, ctype=None, tempmode='real',
-                 touch=('body',), endless=None, max_calls=None, propagate=True, method='POST'):
+                 touch=('body',), endless=None, max_calls=None, propagate=True, method='POST', retry=False):
     """Serve one request whose body stream is SimStream(wire, sched)."""
     import ombott
     o = Obs()
@@ -152,6 +152,18 @@ def body_request(wire, sched, *, B, M=None, cl=None, chunked=False, ctype=None, 
                 raise
             except BaseException as e:   # noqa
                 o.handler_exc = e
+                if retry and type(e).__name__ != 'RunTimeout':
+                    # an application (or its error handler) that touches the body again after the failure:
+                    # the failure must stick, the stream must not be consumed any further
+                    seen['retry_calls_before'] = stream.n_calls
+                    try:
+                        seen['retry_body'] = req.body.read()
+                    except SimHang as e2:
+                        o.hang = e2
+                        raise
+                    except BaseException as e2:   # noqa
+                        seen['retry_exc'] = e2
+                    seen['retry_calls_after'] = stream.n_calls
                 raise
             return 'ok'
 
